@@ -9,6 +9,7 @@ INIT Init
 NEXT Next
 INVARIANT BindLaws
 INVARIANT BindTotal
+INVARIANT TwinsDiffer
 INVARIANT Transparent
 INVARIANT ReturnsWhatFReturns
 INVARIANT FallbackIffRaises
